@@ -1,4 +1,4 @@
-(* C20_index — pkg/repo/index.go: loadIndex :343 (the clean-up loop :354-:375), SortEntries
+(* C20_index — pkg/repo/index.go: loadIndex :347 (the clean-up loop :358-:379), SortEntries
    :171 with ChartVersions.Less :66, Get :181, Merge :254 (after fix 7353d5a).
    An entry list is what YAML/JSON decoding of `entries: {name: [...]}` can produce:
    each item is null (None), an object with no metadata field at all (the embedded
